@@ -99,6 +99,7 @@ type c10Case struct {
 	Lists    map[string][]c10Entry // to, cc, bto, bcc, audience
 	Actor    *c10Entry             // for intransitive activities and questions (and, ignored, activities)
 	BlockObj *c10Entry             // Block activities: the blocked object
+	Shared   [2]string             // when set: the second property holds the very slice of the first (a caller that built its recipients once)
 }
 
 var c10Order = []string{"To", "CC", "Bto", "BCC", "Audience"}
@@ -116,6 +117,9 @@ func (c c10Case) String() string {
 	}
 	if c.BlockObj != nil {
 		fmt.Fprintf(&sb, " object=%v", *c.BlockObj)
+	}
+	if c.Shared[0] != "" {
+		fmt.Fprintf(&sb, " %s-is-the-slice-of-%s", c.Shared[1], c.Shared[0])
 	}
 	return sb.String()
 }
@@ -152,6 +156,9 @@ func c10Run(c c10Case) (ds []keyed, dupPattern string) {
 	orig := map[string]ap.ItemCollection{}
 	for _, name := range c10Order {
 		l := mk(c.Lists[name])
+		if c.Shared[1] == name && c.Shared[0] != "" {
+			l = v.FieldByName(c.Shared[0]).Interface().(ap.ItemCollection) // the same backing array, the same length
+		}
 		orig[name] = append(ap.ItemCollection(nil), l...)
 		v.FieldByName(name).Set(reflect.ValueOf(l))
 	}
@@ -285,7 +292,7 @@ func TestC10(t *testing.T) {
 		"to/cc/bto/bcc for Object, Create, Block and Ignore activities (object = alice for the last two; only the Block leaves her out); random: all five addressing properties (+actor), lists up to 8 over 5 addressees incl. the public collection " +
 		"in IRI / embedded actor / embedded object / scheme-case-trailing-slash variant presentations and nil entries, all 13 types with Recipients(). Oracle: reference first-mention scan " +
 		"(to, cc, bto, bcc, [actor], audience) under the IRI normaliser ignoring scheme; returned list and the four lists after the call are compared; Block clause. " +
-		"near: the same pair enumeration over {alice, alice?page=1, an object alice?page=1&page=2}: three different addressees whose ids differ only in the query, two addressees named by acct: URIs, a collection object as an addressee and an embedded actor without an id (not an addressee; it stays in its list and ends nothing). " +
+		"shared: every one of the 85 lists assigned as one slice to every pair of the five addressing properties; near: the same pair enumeration over {alice, alice?page=1, an object alice?page=1&page=2}: three different addressees whose ids differ only in the query, two addressees named by acct: URIs, a collection object as an addressee and an embedded actor without an id (not an addressee; it stays in its list and ends nothing). " +
 		"non-trivial = at least one addressee mentioned twice; distinct by the assignment")
 
 	alpha := []c10Entry{{0, "iri"}, {1, "iri"}, {0, "actor"}, {-1, "nil"}}
@@ -340,6 +347,44 @@ func TestC10(t *testing.T) {
 		}
 		r.Cells(total, done)
 		r.Exhaustive("near", !r.Replaying())
+	}
+	// one slice assigned to two of the value's own lists: the de-duplication edits the lists in place, one after the other, and what it
+	// leaves in the shared backing array must not reach the list that keeps the first mentions
+	if r.WantLayer("shared", true) {
+		total, done := 0, 0
+		for _, vr := range []struct{ gt, vt string }{{"Object", "Note"}, {"Activity", "Create"}, {"Place", "Place"}} {
+			for i, pa := range c10Order {
+				for j, pb := range c10Order {
+					if j <= i {
+						continue // the second property comes later in the scan order (c10Order is built in that order)
+					}
+					for _, l := range lists {
+						if len(l) == 0 {
+							continue
+						}
+						total++
+						c := c10Case{GoType: vr.gt, VType: vr.vt, Lists: map[string][]c10Entry{pa: l, pb: l}, Shared: [2]string{pa, pb}}
+						cell := c.String()
+						if !r.WantCell(cell) {
+							continue
+						}
+						done++
+						ds, dup := c10Run(c)
+						// and once more: what the first call left behind is the second call's input
+						r.Case(cell, dup != "", "shared "+vr.vt)
+						if done%499 == 0 {
+							r.Sample(cell, map[string]interface{}{"layer": "shared", "case": cell})
+						}
+						for k := range ds {
+							ds[k].Key += " shared-slice"
+						}
+						reportAll(r, "shared", cell, ds, cell)
+					}
+				}
+			}
+		}
+		r.Cells(total, done)
+		r.Exhaustive("shared", !r.Replaying())
 	}
 	if r.WantLayer("pairs", true) {
 		props := []string{"To", "CC", "Bto", "BCC"}
